@@ -253,6 +253,7 @@ func TestC18(t *testing.T) {
 	c18Trackers(t, tr, rng, a)
 	c18Lend(t, tr, rng, a)
 	c18Rates(t, tr, rng, a)
+	c18LendTracker(t, tr, rng, a)
 }
 
 // c18Float: CalculationOfRewards called directly; groups of related inputs.
@@ -274,7 +275,7 @@ func c18Float(t *testing.T, tr *Trace, rng *Rng, a *c18App) {
 	}
 
 	// --- scan of the hypotheses about math.Pow; every failing point is replayed through the real function
-	n := scale(1000000, 100000000)
+	n := scale(3000000, 100000000)
 	counts, fails, wit := c18ScanHyp(seed(), n)
 	for _, k := range []string{"ge_one", "zero", "mono_time", "mono_rate", "submult"} {
 		tr.Line("acc.hyp", k, i64(int64(counts[k])), i64(int64(fails[k])))
@@ -300,7 +301,7 @@ func c18Float(t *testing.T, tr *Trace, rng *Rng, a *c18App) {
 	}
 
 	// --- generated groups
-	groups := scale(2500, 60000)
+	groups := scale(8000, 120000)
 	for g := 0; g < groups; g++ {
 		tr.Line("acc.begin")
 		amt, lsr, s := c18Amount(rng), c18Rate(rng), c18Secs(rng)
@@ -401,7 +402,7 @@ func c18Trackers(t *testing.T, tr *Trace, rng *Rng, a *c18App) {
 	owner := sdk.AccAddress([]byte("c18-owner-address---")).String()
 	app.Rewardskeeper.SetAppByAppID(base, 1)
 
-	seqs := scale(150, 3000)
+	seqs := scale(500, 6000)
 	for sq := 0; sq < seqs; sq++ {
 		ctx, _ := base.CacheContext()
 		isVault := sq%2 == 0
@@ -610,7 +611,7 @@ func c18Lend(t *testing.T, tr *Trace, rng *Rng, a *c18App) {
 		a.c18LendCall(tr, "borrow", sdk.NewInt(1000000000), big.NewInt(80000000000000000), big.NewInt(10000000000000000), c18P18, c18P18, c18Now, c18Now-s)
 		a.c18LendCall(tr, "stable", sdk.NewInt(1000000000), big.NewInt(90000000000000000), nil, nil, nil, c18Now, c18Now-s)
 	}
-	groups := scale(2500, 60000)
+	groups := scale(8000, 120000)
 	for g := 0; g < groups; g++ {
 		tr.Line("lr.begin")
 		kind := kinds[rng.Intn(3)]
@@ -804,7 +805,7 @@ func c18Rates(t *testing.T, tr *Trace, rng *Rng, a *c18App) {
 	for _, uu := range []int64{0, 1, 400000000000000000, 799999999999999999, 800000000000000000, 800000000000000001, 900000000000000000, T} {
 		atU(cp, uu)
 	}
-	groups := scale(600, 15000)
+	groups := scale(2000, 30000)
 	for g := 0; g < groups; g++ {
 		tr.Line("lr.begin")
 		p := genParams()
@@ -855,6 +856,101 @@ func c18Rates(t *testing.T, tr *Trace, rng *Rng, a *c18App) {
 		case 2:
 			eval(p, sdk.NewInt(5), sdk.NewInt(math.MaxInt64), sdk.NewInt(1))
 			tr.Count("bad:borrowed_range")
+		}
+	}
+}
+
+// ---------------------------------------------------------------------------------------------
+// lend-reward tracker: the real IterateLends on a real lend position
+// ---------------------------------------------------------------------------------------------
+
+func c18LendTracker(t *testing.T, tr *Trace, rng *Rng, a *c18App) {
+	app, base := a.app, a.ctx
+	must := func(err error) {
+		if err != nil {
+			t.Fatal(err)
+		}
+	}
+	k := app.LendKeeper
+	must(app.AssetKeeper.AddAssetRecords(base, assettypes.Asset{Name: "CLENDX", Denom: "uclendx", Decimals: sdk.NewInt(1000000), IsOnChain: true}))
+	var assetID, cAssetID uint64
+	for _, as := range app.AssetKeeper.GetAssets(base) {
+		switch as.Denom {
+		case "ulendx":
+			assetID = as.Id
+		case "uclendx":
+			cAssetID = as.Id
+		}
+	}
+	poolID := k.GetPoolID(base)
+	owner := sdk.AccAddress([]byte("c18-lender-address--"))
+	huge := sdk.NewIntFromBigInt(new(big.Int).Lsh(big.NewInt(1), 120))
+	seqs := scale(200, 3000)
+	for sq := 0; sq < seqs; sq++ {
+		ctx, _ := base.CacheContext()
+		// rate parameters and a utilisation that give a lend rate in an ordinary range
+		k.SetAssetRatesParams(ctx, lendtypes.AssetRatesParams{AssetID: assetID, UOptimal: sdk.MustNewDecFromStr("0.8"), Base: sdk.MustNewDecFromStr("0.002"),
+			Slope1: c18DecI(int64(1 + rng.U64()%300000000000000000)), Slope2: sdk.MustNewDecFromStr("3.0"), EnableStableBorrow: true, StableBase: sdk.MustNewDecFromStr("0.1"),
+			StableSlope1: sdk.MustNewDecFromStr("0.1"), StableSlope2: sdk.MustNewDecFromStr("3.0"), Ltv: sdk.OneDec(), LiquidationThreshold: sdk.OneDec(),
+			LiquidationPenalty: sdk.OneDec(), LiquidationBonus: sdk.OneDec(), ReserveFactor: sdk.MustNewDecFromStr("0.1"), CAssetID: cAssetID})
+		uRaw := int64(rng.U64() % 1000000000000000001)
+		if uRaw < 1000000000000000000 {
+			must(app.BankKeeper.MintCoins(ctx, lendtypes.ModuleAcc1, sdk.NewCoins(sdk.NewCoin("ulendx", sdk.NewInt(1000000000000000000-uRaw)))))
+		}
+		must(app.BankKeeper.MintCoins(ctx, lendtypes.ModuleAcc1, sdk.NewCoins(sdk.NewCoin("uclendx", huge))))
+		st, _ := k.GetAssetStatsByPoolIDAndAssetID(ctx, poolID, assetID)
+		st.TotalBorrowed, st.TotalStableBorrowed, st.TotalInterestAccumulated, st.TotalLend = sdk.NewInt(uRaw), sdk.ZeroInt(), huge, sdk.ZeroInt()
+		k.SetAssetStatsByPoolIDAndAssetID(ctx, st)
+		principal := sdk.NewInt(int64(1 + rng.Intn(1000000000)))
+		if rng.Chance(30) {
+			principal = c18Amount(rng).AddRaw(1)
+		}
+		t0 := c18Now - int64(rng.Intn(int(3*c18Year)))
+		k.SetLend(ctx, lendtypes.LendAsset{ID: 1, AssetID: assetID, PoolID: poolID, Owner: owner.String(), AmountIn: sdk.NewCoin("ulendx", principal),
+			LendingTime: time.Unix(t0, 0), AvailableToBorrow: principal, AppID: 1, GlobalIndex: sdk.OneDec(), LastInteractionTime: time.Unix(t0, 0),
+			CPoolName: "C18POOL", TotalRewards: sdk.ZeroInt()})
+		tr.Line("lr.begin")
+		now := t0
+		for stp := 0; stp < rng.Range(2, scale(8, 14)); stp++ {
+			switch rng.Intn(4) {
+			case 0:
+				now += int64(rng.Intn(10))
+			case 1:
+				now += int64(rng.Intn(100000))
+			default:
+				now += int64(rng.Intn(int(c18Year)))
+			}
+			sctx := ctx.WithBlockTime(time.Unix(now, 0))
+			lend, _ := k.GetLend(sctx, 1)
+			apr, err := k.GetLendAPRByAssetIDAndPoolID(sctx, poolID, assetID)
+			must(err)
+			// what the accrual function returns for this step (REAL function; also compared with the model)
+			a2 := &c18App{app: app, ctx: sctx}
+			a2.c18LendCall(tr, "lend", lend.AmountIn.Amount, apr.BigInt(), nil, lend.GlobalIndex.BigInt(), nil, now, lend.LastInteractionTime.Unix())
+			x, _, err := k.CalculateLendReward(sctx, lend.AmountIn.Amount.String(), apr, lend)
+			must(err)
+			trB := "0"
+			if tk, f := k.GetLendRewardTracker(sctx, 1); f {
+				trB = c18Raw(tk.RewardsAccumulated)
+			}
+			var idx sdk.Dec
+			panicked, _ := try(func() { idx, err = k.IterateLends(sctx, 1) })
+			if panicked || err != nil {
+				tr.Count("lendtrack:" + c18Outcome(panicked, err))
+				break
+			}
+			tk, _ := k.GetLendRewardTracker(sctx, 1)
+			lend2, _ := k.GetLend(sctx, 1)
+			paid := lend2.TotalRewards.Sub(lend.TotalRewards)
+			tr.Line("lr.track", trB, c18Raw(x), paid.String(), c18Raw(tk.RewardsAccumulated))
+			tr.Count("lendtrack:ok")
+			if paid.IsPositive() {
+				tr.Count("lendtrack:paid")
+			}
+			// what every caller of IterateLends does next
+			lend2.GlobalIndex = idx
+			lend2.LastInteractionTime = sctx.BlockTime()
+			k.SetLend(sctx, lend2)
 		}
 	}
 }
